@@ -59,6 +59,9 @@ def opcode_params():
         "backward": [],
         "caches": {},
     }
+    for cat in ("hasconst", "hasname", "haslocal", "hasfree", "hascompare"):
+        P[cat] = sorted(o for o in getattr(opcode, cat, ()) if o < 256)
+    P["ncmp"] = len(opcode.cmp_op)
     if VER >= (3, 11):
         P["backward"] = sorted(op for name, op in opcode.opmap.items() if "JUMP_BACKWARD" in name and op < 256)
         ice = opcode._inline_cache_entries
@@ -110,7 +113,7 @@ def strip_code(d):
     return d
 
 
-_DIS27_RE = re.compile(r"^\s*(\d+)?\s*(-->)?\s*(>>)?\s+(\d+) ([A-Z_+0-9]+)\s*(\d+)?(?: \((.*)\))?\s*$")
+_DIS27_RE = re.compile(r"^\s*(\d+)?\s*(-->)?\s*(>>)?\s+(\d+) ([A-Z_+0-9]+)\s*(\d+)?L?(?: \((.*)\))?\s*$")
 
 
 def dis27_text(co):
